@@ -1,6 +1,7 @@
 import Hyeong.Driver.OptOps
 import Hyeong.Model.Repl
 import Hyeong.Model.Debug
+import Hyeong.Model.Cli
 /-! Driver: transcripts of the interactive interpreter (and later the debugger / CLI). -/
 namespace Drv
 open HyE HyP
@@ -26,5 +27,17 @@ def dbgEndStr : DbgEnd → String
 def debugOp (path fname src script : String) : String :=
   let r := debugSession (N := HyN.NumI) 6000 (decText path) (decText fname) (decText src) (decText script)
   s!"{encText r.1} {dbgEndStr r.2}"
+
+def cliOutStr : Option CliOut → String
+  | none => "hang"
+  | some o => s!"{encText o.stdout} {encText o.stderr} {b01 o.diag} {o.status}"
+
+def cliRunOp (level path extOk src stdin : String) : String :=
+  let srcO := if src = "INVALID" then none else some (decText src)
+  cliOutStr (cliRun (N := HyN.NumI) jumpBudget 8000 level.toNat! (decText path) (extOk = "1") srcO (decText stdin))
+
+def cliCheckOp (path fname extOk src : String) : String :=
+  let srcO := if src = "INVALID" then none else some (decText src)
+  cliOutStr (some (cliCheck (decText path) (decText fname) (extOk = "1") srcO))
 
 end Drv
